@@ -746,6 +746,12 @@ class Translator:
                         if sl.lower is not None or sl.step is not None or sl.upper is None or int_const(sl.upper) < 0:
                             raise Unsupported("slice assignment form")
                         out.append("SSetSlice %s %s %s" % (cstr(t.value.id), cZ(int_const(sl.upper)), self.expr(s.value)))
+                    elif block_slices(t.slice) is not None:
+                        # x[r0:r1, c0:c1] = e (each bound optional, no step): builtin "store[,]"
+                        bounds = [self.expr(b) if b is not None else "(EConst VNone)" for b in block_slices(t.slice)]
+                        out.append("SAssign %s (ECall %s %s)" % (
+                            lst([cstr(t.value.id)]), cstr("store[,]"),
+                            lst(["(EVar %s)" % cstr(t.value.id)] + bounds + [self.expr(s.value)])))
                     elif isinstance(t.slice, ast.Tuple):
                         # x[:, i] = e
                         el = t.slice.elts
@@ -830,6 +836,14 @@ class Translator:
             else:
                 raise Unsupported(type(s).__name__)
         return lst(out)
+
+
+def block_slices(sl):
+    """x[a:b, c:d] with at least one bound given -> [a, b, c, d] (None for a missing bound), else None"""
+    if (isinstance(sl, ast.Tuple) and len(sl.elts) == 2 and all(isinstance(e, ast.Slice) and e.step is None for e in sl.elts)
+            and not all(e.lower is None and e.upper is None for e in sl.elts)):
+        return [sl.elts[0].lower, sl.elts[0].upper, sl.elts[1].lower, sl.elts[1].upper]
+    return None
 
 
 def is_full_slice(sl):
@@ -940,6 +954,8 @@ class Fresh:
                 and e.func.id in FRESH_OBJECT_CALLS and not any(isinstance(a, ast.Starred) for a in e.args)
                 and not any(k.arg is None for k in e.keywords)):
             return "object"
+        if isinstance(e, ast.Tuple) and e.elts and all(self.kind(x) == "array" for x in e.elts):
+            return "arrtuple"    # (np.empty(..), np.empty(..)): distinct new arrays that only this tuple holds
         if isinstance(e, ast.Constant) and e.value is None:
             return "none"        # not an object that can be mutated; joins with a fresh list / array
         if isinstance(e, ast.Call) and self.tr.dotted(e.func) in FRESH_ARRAY_CALLS_KW:
@@ -1058,7 +1074,7 @@ class Fresh:
                         raise Unsupported("assignment into a compound object")
                     x = t.value.id
                     self.drop(state, esc)
-                    if is_full_slice(t.slice):
+                    if is_full_slice(t.slice) or block_slices(t.slice) is not None:
                         self.need(state, x, ("array",), frozen, "x[:] = ..")    # on a list it would replace the contents
                     else:
                         self.need(state, x, ("list", "array", "dict", "frame"), frozen, "item assignment")
@@ -1168,10 +1184,15 @@ def package_root(path):
     return d
 
 
-def outparam_ok(tr, tree, path, fdef, pname):
+def outparam_ok(tr, tree, path, fdef, pnames):
+    """pnames: the parameters of fdef that it mutates as arrays.  See the comment above; with several of them every
+    call must pass, in their positions, `t[i]` with distinct constant i, where t is - at that statement - a tuple
+    display of freshly created arrays of the calling function, `(np.empty(..), np.empty(..))` (Fresh, kind
+    "arrtuple": distinct objects that nothing else holds), and the call's result must be assigned to t."""
     fname = fdef.name
-    pindex = [a.arg for a in fdef.args.args].index(pname)
-    nparams = len(fdef.args.args)
+    allparams = [a.arg for a in fdef.args.args]
+    pidx = [allparams.index(p_) for p_ in pnames]
+    nparams = len(allparams)
     # no use of the name in any other module of the package (tests excluded)
     root = package_root(path)
     for dirpath, dirnames, filenames in os.walk(root):
@@ -1188,7 +1209,7 @@ def outparam_ok(tr, tree, path, fdef, pname):
                 if ((isinstance(n, ast.Name) and n.id == fname) or (isinstance(n, ast.Attribute) and n.attr == fname)
                         or (isinstance(n, ast.alias) and (n.name == fname or n.asname == fname))):
                     return False
-    # every use in its own module is `x = f(.., x, ..)` with x a fresh array of the calling function
+    # every use in its own module is `x = f(.., x, ..)` / `t = f(.., t[0], t[1], ..)` with x / t fresh in the caller
     admitted = set()
     ncalls = 0
     for encl in ast.walk(tree):
@@ -1201,19 +1222,30 @@ def outparam_ok(tr, tree, path, fdef, pname):
                 continue
             c = st.value
             if (len(st.targets) != 1 or not isinstance(st.targets[0], ast.Name) or c.keywords or len(c.args) != nparams
-                    or any(isinstance(a, ast.Starred) for a in c.args) or not isinstance(c.args[pindex], ast.Name)
-                    or c.args[pindex].id != st.targets[0].id):
+                    or any(isinstance(a, ast.Starred) for a in c.args)):
                 return False
             x = st.targets[0].id
-            if any(isinstance(m, ast.Name) and m.id == x for k, a in enumerate(c.args) if k != pindex for m in ast.walk(a)):
-                return False
             if not annotated:
                 try:
                     Fresh(tr).block(list(encl.body), {}, frozenset())
                 except Unsupported:
                     return False
                 annotated = True
-            if getattr(st, "_fresh", {}).get(x) != "array":
+            state = getattr(st, "_fresh", {})
+            if len(pidx) == 1 and isinstance(c.args[pidx[0]], ast.Name):
+                if c.args[pidx[0]].id != x or state.get(x) != "array":
+                    return False
+            else:
+                ks = []
+                for k in pidx:
+                    a = c.args[k]
+                    if not (isinstance(a, ast.Subscript) and isinstance(a.value, ast.Name) and a.value.id == x
+                            and is_int_const(a.slice) and int_const(a.slice) >= 0):
+                        return False
+                    ks.append(int_const(a.slice))
+                if len(set(ks)) != len(ks) or state.get(x) != "arrtuple":
+                    return False
+            if any(isinstance(m, ast.Name) and m.id == x for k, a in enumerate(c.args) if k not in pidx for m in ast.walk(a)):
                 return False
             admitted.add(id(c.func))
             ncalls += 1
@@ -1355,9 +1387,9 @@ def translate(path, names):
             mutated = {x.targets[0].value.id for x in ast.walk(n)
                        if isinstance(x, ast.Assign) and len(x.targets) == 1 and isinstance(x.targets[0], ast.Subscript)
                        and isinstance(x.targets[0].value, ast.Name)}
-            outparams = [p_ for p_ in params if p_ in mutated and cls is None and outparam_ok(tr, tree, path, n, p_)]
-            if len(outparams) > 1:
-                raise Unsupported("several out-parameters (they could be the same object)")
+            outparams = [p_ for p_ in params if p_ in mutated and cls is None]
+            if outparams and not outparam_ok(tr, tree, path, n, outparams):
+                outparams = []
             tr.function = n
             Fresh(tr).block([s for s in n.body], {p_: "array" for p_ in outparams}, frozenset())     # also records the state at each statement
             body = tr.stmts(n.body)
